@@ -58,7 +58,7 @@ func QToProto(q Q) *webserverv1.Q {
 }
 
 func QFromProto(p *webserverv1.Q) (Q, error) {
-	switch v := p.Query.(type) {
+	switch v := p.GetQuery().(type) {
 	case *webserverv1.Q_RawConfig:
 		return RawConfigFromProto(v.RawConfig), nil
 	case *webserverv1.Q_Regexp:
@@ -98,7 +98,7 @@ func QFromProto(p *webserverv1.Q) (Q, error) {
 	case *webserverv1.Q_Meta:
 		return MetaFromProto(v.Meta)
 	default:
-		panic(fmt.Sprintf("unknown query node %T", p.Query))
+		return nil, fmt.Errorf("missing or unknown query node %T", p.GetQuery())
 	}
 }
 
@@ -456,7 +456,7 @@ func (q *Branch) ToProto() *webserverv1.Branch {
 }
 
 func RawConfigFromProto(p *webserverv1.RawConfig) (res RawConfig) {
-	for _, protoFlag := range p.Flags {
+	for _, protoFlag := range p.GetFlags() {
 		switch protoFlag {
 		case webserverv1.RawConfig_FLAG_ONLY_PUBLIC:
 			res |= RcOnlyPublic
